@@ -714,11 +714,18 @@ func randomCase(r *vh.Rand, big bool) caseSpec {
 			sc = append(sc, "w")
 		}
 		sc = append(sc, "F")
+		if r.Chance(60) {
+			sc = append(sc, "f")
+		}
 		for i := half; i < ns; i++ {
 			sc = append(sc, "w")
 			if r.Chance(20) {
 				sc = append(sc, []string{"p", "f", "c"}[r.Intn(3)])
 			}
+		}
+		if r.Chance(60) {
+			// a second file of every family and a real merge over containers on both sides of the 65536 boundary
+			sc = append(sc, "f", "c")
 		}
 		for i := 0; i < nq; i++ {
 			sc = append(sc, "q")
@@ -771,7 +778,7 @@ func corpus() []caseSpec {
 			gkeys: [][]int{{0}, {1}, {0, 1}, nil}},
 		{name: "series of one tag key in three containers of series ids (two runs of 65536 fillers), flushed, grouped", fillers: 65536,
 			series: []map[int]string{{0: "a", 1: "x"}, {0: "b", 1: "y"}, {0: "c", 1: "x"}, {0: "d", 1: "y"}, {0: "e", 1: "x"}, {0: "f"}, {0: "g", 1: "z"}},
-			script: strings.Split("wwFwwFwwwfqqcq", ""),
+			script: strings.Split("wwFwwFwwfqwfqcq", ""), // two files of every family, then a real merge
 			conds:  []*cnode{{Op: "like", Key: 0, Vals: []string{"*"}}, {Op: "neq", Key: 0, Vals: []string{"a"}}, {Op: "in", Key: 1, Vals: []string{"x", "z"}}},
 			gkeys:  [][]int{{0}, {0, 1}, {1, 0}}},
 		{name: "not over every layer", series: three, script: strings.Split("wwpwwfwcqq", ""),
